@@ -136,6 +136,10 @@ func c17filesChild(raw json.RawMessage, scratch string) {
 	r := wk.ChildRes("C17")
 	base := prng.New(a.Seed).Split(0xC17)
 	for i := a.Start; i < a.End; i++ {
+		if _, err := os.Stat(filepath.Join(filepath.Dir(scratch), "c17.stuck")); err == nil {
+			r.Note("decode batch cut short after a run-does-not-end verdict")
+			break
+		}
 		rng := base.At(uint64(i))
 		special := ""
 		switch {
@@ -219,12 +223,39 @@ func c17filesChild(raw json.RawMessage, scratch string) {
 		cmd := &run.CmdDecode{}
 		done := make(chan struct{})
 		go func() { cmd.Main(); close(done) }()
+		ended := false
 		select {
 		case <-done:
-		case <-time.After(120 * time.Second):
-			r.Inconcl(fmt.Sprintf("decode of file %d did not end within the watchdog", i))
-			os.Remove(in)
-			continue
+			ended = true
+		case <-time.After(60 * time.Second):
+		}
+		if !ended {
+			// "the run ends when the file is exhausted": if everything the file holds has been printed and the command is
+			// still running a minute after it was started (the unchanged code needs well under a second per file), it does
+			// not end. Decided on the output being complete; without that the watchdog only says inconclusive.
+			complete := false
+			if out, err := ioutil.ReadFile(outFile); err == nil {
+				want, nscripts := expectedLines(recs)
+				got, scripts, bad := parseOutput(out)
+				complete = bad == "" && len(scripts) == nscripts && multisetDiff(want, got) == ""
+			}
+			if complete {
+				select {
+				case <-done: // it ended after all, just now
+					ended = true
+				case <-time.After(20 * time.Second):
+				}
+			}
+			if !ended {
+				if complete {
+					r.Violationf("C17|decode|outcome=run-does-not-end-after-the-file-was-exhausted", d, "every element of file %d is in the output (parallel=%d), yet CmdDecode.Main() has not returned 80 s after it was started", i, par)
+					ioutil.WriteFile(filepath.Join(filepath.Dir(scratch), "c17.stuck"), []byte("x"), 0644)
+				} else {
+					r.Inconcl(fmt.Sprintf("decode of file %d did not end within the watchdog (output incomplete)", i))
+				}
+				os.Remove(in)
+				break // the command of this case keeps running (and spinning): the child ends here
+			}
 		}
 		out, err := ioutil.ReadFile(outFile)
 		os.Remove(in)
